@@ -75,12 +75,7 @@ def run(ctx):
                 r2.anchor_missing(fp)
             else:
                 terms[(name, fp)] = tc[0]
-        for name, fp in (("parse::is_delimiter", "parse::is_delimiter"), ("read::is_delimiter", "parse::read::is_delimiter")):
-            pc = classes.predicate_class(lexpr, fp)
-            if pc is None:
-                r2.anchor_missing(fp)
-            else:
-                terms[(name, fp)] = pc
+        terms.update(classes.delimiter_classes(lexpr, r2.note))
     except classes.Inexact as e:
         r2.violation("<classes>", "inexact", "cannot extract a terminator class: %s" % e)
     r2.floor("terminator-classes", len(terms))
